@@ -136,14 +136,19 @@ def from_solution(p, sol):
         v["used"].append(iv is not None)
         v["bs"].append(iv[0] if iv else -1)
         v["be"].append(iv[1] if iv else -1)
-    for r in p["reqs"]:
-        ivs = []
-        if r["type"] == "cumul":
-            cname = p["cumuls"][r["ref"] - 1]["name"]
-            tname = p["tasks"][r["task"] - 1]["name"]
+    # units of a cumulative worker are folded under the cumulative's name: per requirement and cumulative
+    # worker involved, the intervals the solution reports for (cumulative, task)
+    v["cgroups"] = []
+    for ri, r in enumerate(p["reqs"]):
+        cums = sorted({p["workers"][p["uses"][u - 1]["worker"] - 1]["cumul"] for u in r["uses"]} - {0})
+        tname = p["tasks"][r["task"] - 1]["name"]
+        for k in cums:
+            cname = p["cumuls"][k - 1]["name"]
+            ivs = []
             if cname in sol.resources:
                 ivs = sorted({(a, c) for (tn, a, c) in sol.resources[cname].assignments if tn == tname})
-        v["creqs"].append([list(x) for x in ivs])
+            v["cgroups"].append({"req": ri + 1, "cumul": k, "ivs": [list(x) for x in ivs]})
+        v["creqs"].append([])
     return v
 
 
@@ -182,7 +187,8 @@ def to_trace(p, pid_index, sv, sol=None, fin_override=None):
                 ev(sv["be"][u], {"k": "release", "use": u + 1})
     fin = {"hist": [], "ind": [], "horizon": p["H"],
            "uses": [[sv["bs"][u], sv["be"][u]] if sv["used"][u] else [] for u in range(len(p["uses"]))],
-           "creqs": sv.get("creqs") or [[] for _ in p["reqs"]]}
+           "creqs": sv.get("creqs") or [[] for _ in p["reqs"]],
+           "cgroups": sv.get("cgroups") or []}
     lv0 = []
     if sol is not None:
         fin["horizon"] = sol.horizon
